@@ -60,18 +60,18 @@ type c40xLog struct {
 }
 
 type c40xWorld struct {
-	t      *testing.T
-	rt     *rapid.T
-	ts     *testSetup
-	preset c40xPreset
-	logs   map[common.Hash][]c40xLog // per block hash
-	saved  [][]common.Hash
-	addrs  [4]common.Address
-	tpool  [5]common.Hash
-	nonce  uint64
-	tag    int
-	trace  []string
-	lastOp string
+	t       *testing.T
+	rt      *rapid.T
+	ts      *testSetup
+	preset  c40xPreset
+	logs    map[common.Hash][]c40xLog // per block hash
+	saved   [][]common.Hash
+	addrs   [4]common.Address
+	tpool   [5]common.Hash
+	nonce   uint64
+	tag     int
+	trace   []string
+	lastOp  string
 	reorged bool
 
 	history  uint64
